@@ -35,9 +35,9 @@ man = {
     "setup_cmd": "./check setup",
     "hooks": {
         "guard": "ten0_serde_avro_fast_verif",
-        "enable": "RUSTFLAGS=--cfg ten0_serde_avro_fast_verif (set in harness/.cargo/config.toml [build] rustflags); no hook is currently required by any check",
+        "enable": "RUSTFLAGS=--cfg ten0_serde_avro_fast_verif (harness/.cargo/config.toml [build] rustflags; checks/C10.sh passes it explicitly to the ASan build). Hook: schema::verif_hooks step counter (reset_steps/steps) used by C19.",
         "baseline_off_cmd": "cd /repo && cargo test --workspace --no-fail-fast --offline",
-        "source_commits": [],
+        "source_commits": ["0651384"],
         "add_only": True,
     },
     "engines": [
